@@ -152,6 +152,7 @@ structure Summary (s : State) (i : Nat) (c : Call) (s' : State) (c' : Call) : Pr
   calls : s'.calls = s.calls.set i c'
   emitted : s'.emitted = s.emitted
   par : c'.par = c.par
+  ka : s'.kaHeld = s.kaHeld
   ql : c.par.proxy < s.queueLens.length → ∀ p : Nat,
          qGet s'.queueLens p = qGet s.queueLens p + (if c.par.proxy = p then qd c'.pc - qd c.pc else 0)
   qlen : s'.queueLens.length = s.queueLens.length
@@ -182,24 +183,26 @@ theorem callStep_summary {cfg : Cfg} {s s' : State} {i : Nat} {c : Call} {a : Ca
     rename_i hpc
     split at h
     · injection h with h; subst h
-      refine ⟨_, ⟨rfl, rfl, rfl, ?_, ?_, ?_, ?_, ?_, ?_, ?_, ?_, ?_, ?_, ?_⟩, rfl⟩ <;>
+      refine ⟨_, ⟨rfl, rfl, rfl, rfl, ?_, ?_, ?_, ?_, ?_, ?_, ?_, ?_, ?_, ?_, ?_⟩, rfl⟩ <;>
         simp_all [State.setCall, qd, nd, Pc.inQueue, Pc.inInvoke, Pc.registered, Pc.hasId, Pc.stored, Pc.outcome?, Pc.needsAdp]
     · injection h with h; subst h
-      refine ⟨c, ⟨(set_self hc).symm, rfl, rfl, ?_, ?_, ?_, ?_, ?_, ?_, ?_, ?_, ?_, ?_, ?_⟩, rfl⟩ <;>
+      refine ⟨c, ⟨(set_self hc).symm, rfl, rfl, rfl, ?_, ?_, ?_, ?_, ?_, ?_, ?_, ?_, ?_, ?_, ?_⟩, rfl⟩ <;>
         simp_all [qd, nd, Pc.inQueue, Pc.inInvoke, Pc.registered, Pc.hasId, Pc.stored, Pc.outcome?, Pc.needsAdp]
   all_goals (
     repeat' (split at h)
     all_goals (try contradiction)
     all_goals (
       injection h with h; subst h
-      refine ⟨_, ⟨rfl, rfl, rfl, ?_, ?_, ?_, ?_, ?_, ?_, ?_, ?_, ?_, ?_, ?_⟩, rfl⟩ <;>
+      refine ⟨_, ⟨rfl, rfl, rfl, rfl, ?_, ?_, ?_, ?_, ?_, ?_, ?_, ?_, ?_, ?_, ?_⟩, rfl⟩ <;>
         simp_all [State.setCall, State.setConn, qd, nd, Pc.inQueue, Pc.inInvoke, Pc.registered, Pc.hasId,
           Pc.stored, Pc.outcome?, Pc.needsAdp, Consts.callQueueLenInc, Consts.callInvokeNumInc, qGet_qAdd, qAdd_length]))
 
 /-! ### the invariant -/
 
 structure Inv (s : State) : Prop where
-  ql : ∀ p : Nat, qGet s.queueLens p = (s.calls.countP (fun c => c.pc.inQueue && c.par.proxy == p) : Nat)
+  ql : ∀ p : Nat, qGet s.queueLens p =
+         (s.calls.countP (fun c => c.pc.inQueue && c.par.proxy == p) : Nat) + (s.kaHeld.count p : Nat)
+  kax : ∀ p ∈ s.kaHeld, p < s.queueLens.length
   qpx : ∀ (i : Nat) (c : Call), s.calls[i]? = some c → c.par.proxy < s.queueLens.length
   inv : s.invokeNum = (s.calls.countP (fun c => c.pc.inInvoke) : Nat)
   tbl : ∀ e ∈ s.table, ∃ c, s.calls[e.call]? = some c ∧ c.id = e.id ∧ c.adp = e.adp ∧ c.pc.registered = true
@@ -252,12 +255,14 @@ theorem inv_of_summary {s s' : State} {i : Nat} {c c' : Call} (hI : Inv s) (hc :
   constructor
   · -- ql
     intro p
-    rw [hs.ql (hI.qpx i c hc) p, hs.calls, hI.ql p]
+    rw [hs.ql (hI.qpx i c hc) p, hs.calls, hI.ql p, hs.ka]
     have := countP_set_int (fun c : Call => c.pc.inQueue && c.par.proxy == p) (c' := c') hc
     rw [this, hs.par]
     by_cases hp : c.par.proxy = p
     · simp [hp, qd]; omega
     · simp [hp]
+  · -- kax
+    rw [hs.ka, hs.qlen]; exact hI.kax
   · -- qpx
     intro j cj hj
     rw [hs.qlen]
@@ -440,13 +445,15 @@ theorem inv_of_summary {s s' : State} {i : Nat} {c c' : Call} (hI : Inv s) (hc :
 /-- steps that leave calls, table, counters and the id counter alone -/
 theorem inv_of_frame {s s' : State} (hI : Inv s) (hg : s'.gen = s.gen) (hc : s'.calls = s.calls)
     (ht : s'.table = s.table) (hq : s'.queueLens = s.queueLens) (hn : s'.invokeNum = s.invokeNum)
+    (hk : s'.kaHeld = s.kaHeld)
     (he : ∀ x, x ∈ s.emitted → x ∈ s'.emitted) (hl : s'.conns.length = s.conns.length)
     (hr : ∀ (r : Nat) (x : Rcv), s'.rcvs[r]? = some x → (x.adp, x.pkt) ∈ s'.emitted ∧
       ∀ j, x.pc = RPc.offer j →
         ((∃ c : Call, s.calls[j]? = some c ∧ c.id = x.pkt.id ∧ c.adp = x.adp ∧ c.pc.stored = true) ∧
           x.pkt.id ≠ 0 ∧ x.pkt.oneway = false)) : Inv s' := by
   constructor
-  · rw [hq, hc]; exact hI.ql
+  · rw [hq, hc, hk]; exact hI.ql
+  · rw [hq, hk]; exact hI.kax
   · rw [hq, hc]; exact hI.qpx
   · rw [hn, hc]; exact hI.inv
   · rw [ht, hc]; exact hI.tbl
@@ -513,6 +520,8 @@ theorem inv_step {cfg : Cfg} {s s' : State} {a : Action} (hI : Inv s) (h : step 
     · intro p
       rw [qGet_qPad]
       simp only [List.countP_append]; simp [Pc.inQueue]; exact hI.ql p
+    · intro p hp
+      exact Nat.lt_of_lt_of_le (hI.kax p hp) (qPad_length_ge _ _)
     · intro j x hx
       rcases getElem?_append_one_cases hx with ⟨_, rfl⟩ | ⟨_, h⟩
       · exact qPad_length_gt _ _
@@ -560,7 +569,7 @@ theorem inv_step {cfg : Cfg} {s s' : State} {a : Action} (hI : Inv s) (h : step 
     simp only [step] at h
     split at h
     · injection h with h; subst h
-      refine inv_of_frame hI rfl rfl rfl rfl rfl (fun x hx => List.mem_cons_of_mem _ hx) rfl ?_
+      refine inv_of_frame hI rfl rfl rfl rfl rfl rfl (fun x hx => List.mem_cons_of_mem _ hx) rfl ?_
       intro r x hx
       rcases getElem?_append_one_cases hx with ⟨_, rfl⟩ | ⟨_, hx'⟩
       · exact ⟨List.mem_cons_self, by intro j hj; simp at hj⟩
@@ -578,7 +587,7 @@ theorem inv_step {cfg : Cfg} {s s' : State} {a : Action} (hI : Inv s) (h : step 
       split at h
       · next hpc =>
         injection h with h; subst h
-        refine inv_of_frame hI rfl rfl rfl rfl rfl (fun x hx => hx) rfl ?_
+        refine inv_of_frame hI rfl rfl rfl rfl rfl rfl (fun x hx => hx) rfl ?_
         intro r' y hy
         rcases getElem?_set_cases hy with ⟨_, rfl⟩ | ⟨_, hy'⟩
         · refine ⟨hI.emi r x hx, ?_⟩
@@ -606,7 +615,7 @@ theorem inv_step {cfg : Cfg} {s s' : State} {a : Action} (hI : Inv s) (h : step 
             rw [hc] at h0; injection h0 with h0; subst h0
             have hs : Summary s i c ((s.setCall i { c with pc := .decQ (.reply x.pkt) }).setRcv r { x with pc := .delivered })
                 { c with pc := .decQ (.reply x.pkt) } := by
-              refine ⟨rfl, rfl, rfl, ?_, ?_, ?_, ?_, ?_, ?_, ?_, ?_, ?_, ?_, ?_⟩ <;>
+              refine ⟨rfl, rfl, rfl, rfl, ?_, ?_, ?_, ?_, ?_, ?_, ?_, ?_, ?_, ?_, ?_⟩ <;>
                 simp_all [State.setCall, State.setRcv, qd, nd, Pc.inQueue, Pc.inInvoke, Pc.registered, Pc.hasId,
                   Pc.stored, Pc.outcome?, Pc.needsAdp]
               have := hI.emi r x hx
@@ -626,7 +635,7 @@ theorem inv_step {cfg : Cfg} {s s' : State} {a : Action} (hI : Inv s) (h : step 
     · next x hx =>
       split at h
       · injection h with h; subst h
-        refine inv_of_frame hI rfl rfl rfl rfl rfl (fun x hx => hx) rfl ?_
+        refine inv_of_frame hI rfl rfl rfl rfl rfl rfl (fun x hx => hx) rfl ?_
         intro r' y hy
         rcases getElem?_set_cases hy with ⟨_, rfl⟩ | ⟨_, hy'⟩
         · exact ⟨hI.emi r x hx, by intro j hj; simp at hj⟩
@@ -638,7 +647,7 @@ theorem inv_step {cfg : Cfg} {s s' : State} {a : Action} (hI : Inv s) (h : step 
     split at h
     · split at h
       · injection h with h; subst h
-        exact inv_of_frame hI rfl rfl rfl rfl rfl (fun x hx => hx) (by simp [State.setConn])
+        exact inv_of_frame hI rfl rfl rfl rfl rfl rfl (fun x hx => hx) (by simp [State.setConn])
           (fun r x hx => ⟨hI.emi r x hx, fun j hj => hI.off r x j hx hj⟩)
       · contradiction
     · contradiction
@@ -648,8 +657,59 @@ theorem inv_step {cfg : Cfg} {s s' : State} {a : Action} (hI : Inv s) (h : step 
     · split at h
       · contradiction
       · injection h with h; subst h
-        exact inv_of_frame hI rfl rfl rfl rfl rfl (fun x hx => hx) (by simp [State.setConn])
+        exact inv_of_frame hI rfl rfl rfl rfl rfl rfl (fun x hx => hx) (by simp [State.setConn])
           (fun r x hx => ⟨hI.emi r x hx, fun j hj => hI.off r x j hx hj⟩)
+    · contradiction
+
+  | kaCas =>
+    simp only [step] at h; injection h with h; subst h
+    exact ⟨hI.ql, hI.kax, hI.qpx, hI.inv, hI.tbl, hI.off, hI.emi, hI.rep, hI.idl, hI.sqd, hI.own, hI.adpv⟩
+  | kaAdd =>
+    simp only [step] at h; injection h with h; subst h
+    refine ⟨hI.ql, hI.kax, hI.qpx, hI.inv, hI.tbl, hI.off, hI.emi, hI.rep, ?_, hI.sqd, hI.own, hI.adpv⟩
+    intro i c hc hid
+    obtain ⟨h1, h2⟩ := hI.idl i c hc hid
+    refine ⟨h1, ?_⟩
+    simp only [Gen.add]
+    split
+    · rw [List.reverse_cons, List.getElem?_append_left]
+      · exact h2
+      · have := lt_of_getElem? h2; simpa using this
+    · exact h2
+  | kaTake p =>
+    simp only [step] at h
+    split at h
+    · next hp =>
+      injection h with h; subst h
+      refine ⟨?_, ?_, ?_, hI.inv, hI.tbl, hI.off, hI.emi, hI.rep, hI.idl, hI.sqd, hI.own, hI.adpv⟩
+      · intro q
+        simp only [qGet_qAdd hp, List.count_cons, hI.ql q, Consts.callQueueLenInc]
+        by_cases hq : p = q <;> simp [hq] <;> omega
+      · intro q hq
+        rw [qAdd_length]
+        rcases List.mem_cons.mp hq with rfl | hq'
+        · exact hp
+        · exact hI.kax q hq'
+      · intro i c hc; rw [qAdd_length]; exact hI.qpx i c hc
+    · contradiction
+  | kaRelease p =>
+    simp only [step] at h
+    split at h
+    · next hm =>
+      injection h with h; subst h
+      have hp := hI.kax p hm
+      refine ⟨?_, ?_, ?_, hI.inv, hI.tbl, hI.off, hI.emi, hI.rep, hI.idl, hI.sqd, hI.own, hI.adpv⟩
+      · intro q
+        simp only [qGet_qAdd hp, List.count_erase, hI.ql q, Consts.callQueueLenInc]
+        by_cases hq : p = q
+        · subst hq
+          have := List.count_pos_iff.mpr hm
+          simp; omega
+        · simp [hq]
+      · intro q hq
+        rw [qAdd_length]
+        exact hI.kax q (List.mem_of_mem_erase hq)
+      · intro i c hc; rw [qAdd_length]; exact hI.qpx i c hc
     · contradiction
 
 theorem inv_reachable {cfg : Cfg} {ctr : Int} {s : State} (h : Reachable cfg ctr s) : Inv s := by
@@ -672,6 +732,8 @@ theorem step_gen {cfg : Cfg} {s s' : State} {a : Action} (h : step cfg s a = som
       · exact Or.inr (Or.inr hg)
     · contradiction
   | spawn par => simp only [step] at h; injection h with h; subst h; exact Or.inl rfl
+  | kaCas => simp only [step] at h; injection h with h; subst h; exact Or.inr (Or.inl rfl)
+  | kaAdd => simp only [step] at h; injection h with h; subst h; exact Or.inr (Or.inr rfl)
   | _ =>
     simp only [step] at h
     repeat' (split at h)
